@@ -6,6 +6,8 @@
 import Asn1.Container
 import Proofs.ContainerSeqOf
 import Proofs.ContainerSort
+import Proofs.ContainerRec
+import Proofs.ContainerChoice
 
 namespace Asn1.Container
 
@@ -415,5 +417,54 @@ theorem setOf_int_perm (cfg : EncCfg) (hsort : cfg.sortSetOf = true) {zs zs' : L
     simp only [Except.map]
     rw [sortSetOfChunks_perm hp (framed_padInj _ cs hfr)]
   · rw [h1, h2]
+
+
+/-! ### DEFAULT set explicitly or left out; cloning -/
+
+/-- a DEFAULT slot that holds the default value abstracts like an empty one -/
+theorem absFields_default (fks : List FK) (l : List Comp) (k : Nat) (d : Int)
+    (hk : fks[k]? = some (FK.dflt d)) (hl : k < l.length) :
+    Rec.absFields fks (l.set k (.val d)) = Rec.absFields fks (l.set k .hole) := by
+  induction fks generalizing l k with
+  | nil => rfl
+  | cons fk fks ih =>
+    cases l with
+    | nil => simp at hl
+    | cons c t =>
+      cases k with
+      | zero =>
+        simp only [List.getElem?_cons_zero, Option.some.injEq] at hk
+        subst hk
+        rfl
+      | succ k =>
+        simp only [List.getElem?_cons_succ] at hk
+        simp only [List.set_cons_succ]
+        rw [absFields_cons, absFields_cons]
+        simp only [List.headD_cons, List.tail_cons]
+        rw [ih t k hk (by simpa using hl)]
+
+/-- cloning with `cloneValueFlag=True` keeps the abstract content (SEQUENCE OF / SET OF, on the
+    representation of a prototype state) -/
+theorem seqOf_clone_abs (typed : Bool) (s : ListSpec.St) (hinv : ListSpec.Inv typed s) :
+    SeqOf.abs (SeqOf.step typed (ListSpec.rep typed s) (.clone true)).1 = SeqOf.abs (ListSpec.rep typed s) := by
+  rw [(step_rep s (.clone true) hinv rfl).1]
+  rfl
+
+/-- … SEQUENCE / SET with declared fields -/
+theorem rec_clone_abs (fields : List FK) (hN : fields.length ≠ 0) (st : RecSt) (hinv : Rec.Inv fields st) :
+    Rec.abs fields (Rec.step fields st (.clone true)).1 = Rec.abs fields st := by
+  obtain ⟨_, h2, h3⟩ := step_abs hinv hN (.clone true) rfl
+  rw [abs_spec h3 hN, abs_spec hinv hN, h2]
+  rfl
+
+/-- … CHOICE -/
+theorem choice_clone_abs (n : Nat) (hn : n ≠ 0) (st : ChoiceSt) (hinv : Choice.Inv n st) :
+    Choice.abs (Choice.step n st (.clone true)).1 = Choice.abs st := by
+  obtain ⟨_, h2, _⟩ := choice_step hn hinv (.clone true)
+  rw [choice_abs_spec, choice_abs_spec, h2]
+  simp only [OptionSpec.step, Bool.true_and]
+  cases h : (Choice.absO st).sel with
+  | none => simp [OptionSpec.abs, h]
+  | some p => simp [OptionSpec.abs, h]
 
 end Asn1.Container
